@@ -51,6 +51,17 @@ def enc(v):
 
 
 def run_one(w):
+    if w.get("check") == "__sequence__":
+        # the steps in one process, in order: the last one must still satisfy its oracle (history independence)
+        steps = w["args"]["steps"]
+        last = None
+        for i, st in enumerate(steps):
+            last = run_one(st)
+            if last["ok"] is not True and i < len(steps) - 1:
+                return {"ok": None, "detail": f"sequence step {i} does not hold on its own: {last['detail'][:300]}"}
+        if last["ok"] is False:
+            last["detail"] = "after an earlier evaluation in the same process: " + last["detail"]
+        return last
     mod, fn = w["check"].split(".", 1)
     m = importlib.import_module(f"vf.oracles.{mod}")
     f = getattr(m, fn)
